@@ -202,6 +202,9 @@ func init() {
 		if wg.n < 0 {
 			panic(targetPanic{v: iface{t: types.Typ[types.String], v: "sync: negative WaitGroup counter"}})
 		}
+		if wg.n == 0 {
+			wg.releaseAll()
+		}
 		return nil
 	})
 	reg("(*sync.WaitGroup).Done", func(fr *frame, a []value) value {
@@ -211,12 +214,26 @@ func init() {
 		if wg.n < 0 {
 			panic(targetPanic{v: iface{t: types.Typ[types.String], v: "sync: negative WaitGroup counter"}})
 		}
+		if wg.n == 0 {
+			wg.releaseAll()
+		}
 		return nil
 	})
 	reg("(*sync.WaitGroup).Wait", func(fr *frame, a []value) value {
 		s := fr.i.run.sched
 		wg := s.waitgroup(argPtr(a[0]))
-		s.yieldPred(fr, "WaitGroup.Wait", wg, func() bool { return wg.n == 0 })
+		t := &wgTicket{}
+		wg.tickets = append(wg.tickets, t)
+		s.yieldPred(fr, "WaitGroup.Wait", wg, func() bool { return t.released || wg.n == 0 })
+		for i, x := range wg.tickets {
+			if x == t {
+				wg.tickets = append(wg.tickets[:i:i], wg.tickets[i+1:]...)
+				break
+			}
+		}
+		if t.released && wg.n != 0 {
+			panic(targetPanic{v: iface{t: types.Typ[types.String], v: "sync: WaitGroup is reused before previous Wait has returned"}})
+		}
 		return nil
 	})
 	reg("(*sync.Pool).Get", func(fr *frame, a []value) value {
